@@ -59,6 +59,18 @@ def handle (j : Json) : Json :=
     match (do pure ((← dCtx (fld j "ctx")), (← dBoolOp (← (fld j "bop").getStr?)), (← dTerm (fld j "a")), (← dTerm (fld j "b"))) : D (Ctx × BoolOp × Pypika.Term × Pypika.Term)) with
     | .ok (c, op, a, b) => respondDoc j (render c (combine op a b))
     | .error e => Json.mkObj [("bad", Json.str e)]
+  | .ok "build" =>
+    match (do pure ((← (← fArr j "calls").mapM dCall), (← (← fArr j "froms").mapM (·.getNat?)), (← jOpt (·.getNat?) (fld j "update_table"))) : D (List C08.Call × List Nat × Option Nat)) with
+    | .ok (calls, froms, upd) =>
+      let s := C08.run { froms := froms, updateTable := upd } calls
+      let ns (l : List Nat) := Json.arr (l.map (fun (n : Nat) => (toJson n))).toArray
+      let on (o : Option Nat) := match o with | some n => toJson n | none => Json.null
+      Json.mkObj [("selects", ns s.selects), ("froms", ns s.froms), ("joins", ns (s.joins.map (·.1))), ("wheres", ns s.wheres),
+        ("prewheres", ns s.prewheres), ("havings", ns s.havings), ("groupbys", ns s.groupbys), ("orderbys", ns s.orderbys),
+        ("limit", on s.limit), ("offset", on s.offset), ("distinct", Json.bool s.distinct), ("for_update", Json.bool s.forUpdate),
+        ("withs", ns s.withs), ("force_index", ns s.forceIdx), ("use_index", ns s.useIdx), ("updates", ns s.updates),
+        ("columns", ns s.columns), ("values", ns s.values), ("foreign", Json.bool s.foreign), ("with_namespace", Json.bool (C08.wantsNs s))]
+    | .error e => Json.mkObj [("bad", Json.str e)]
   | .ok "tbleq" =>
     match (do pure ((← dTbl (fld j "a")), (← dTbl (fld j "b"))) : D (Tbl × Tbl)) with
     | .ok (a, b) => Json.mkObj [("eq", Json.bool (a.beq b)), ("hash_eq", Json.bool (a.hashKey == b.hashKey)),
